@@ -221,24 +221,27 @@ static void scenario_e2e(std::string &obs) {
   obs = std::string("ret=") + (ok ? "1" : "0") + ";out=" + digest8(out) + ";mout=" + (out == EXP ? "ok" : "BAD(len=" + std::to_string(out.size()) + ",exp=" + std::to_string(EXP.size()) + ")") + ";mlog=ok;races=" + (races.empty() ? "none" : races) + ";overlap=none;threads=" + std::to_string(vs_nthreads_seen);
 }
 
-static std::string classify(const vx::Exec &x, std::string &prop, std::string &key) {
-  // returns "" when the execution satisfies all three properties
-  if (x.outcome == vx::OC_SLEEPBLOCKED) return "";
-  if (x.outcome == vx::OC_DEADLOCK) { prop = "C04"; key = "deadlock"; return "deadlock: " + x.fatal; }
-  if (x.outcome == vx::OC_HORIZON) { prop = "C04"; key = "livelock"; return "step horizon exceeded: " + x.fatal; }
-  if (x.outcome == vx::OC_TIMEOUT) { prop = "C04"; key = "hang"; return "wall-clock alarm (loop without scheduling point?)"; }
-  if (x.outcome == vx::OC_ASAN) { prop = "C03"; key = "memory-error"; return "AddressSanitizer report during pipeline run; obs=" + x.obs; }
-  if (x.outcome == vx::OC_SIGNAL || x.outcome == vx::OC_EXIT) { prop = "C03"; key = "crash"; return "abnormal end: " + x.fatal; }
-  if (x.outcome != vx::OC_OK) { prop = "C03"; key = "internal"; return std::string("unexpected outcome ") + vx::outcome_name(x.outcome); }
+struct Verdict { std::string prop, key, desc; };
+static std::vector<Verdict> classify_all(const vx::Exec &x) {
+  std::vector<Verdict> v;
+  if (x.outcome == vx::OC_SLEEPBLOCKED) return v;
+  if (x.outcome == vx::OC_DEADLOCK) { v.push_back({"C04", "deadlock", "deadlock: " + x.fatal}); return v; }
+  if (x.outcome == vx::OC_HORIZON) { v.push_back({"C04", "livelock", "step horizon exceeded: " + x.fatal}); return v; }
+  if (x.outcome == vx::OC_TIMEOUT) { v.push_back({"C04", "hang", "wall-clock alarm (loop without scheduling point?)"}); return v; }
+  if (x.outcome == vx::OC_ASAN) { v.push_back({"C03", "memory-error", "AddressSanitizer report during pipeline run; obs=" + x.obs}); return v; }
+  if (x.outcome == vx::OC_SIGNAL || x.outcome == vx::OC_EXIT) { v.push_back({"C03", "crash", "abnormal end: " + x.fatal}); return v; }
+  if (x.outcome != vx::OC_OK) { v.push_back({"C03", "internal", std::string("unexpected outcome ") + vx::outcome_name(x.outcome)}); return v; }
   auto field = [&](const char *n) { size_t p = x.obs.find(std::string(n) + "="); if (p == std::string::npos) return std::string("?"); size_t e = x.obs.find(';', p); return x.obs.substr(p + strlen(n) + 1, e == std::string::npos ? std::string::npos : e - p - strlen(n) - 1); };
-  if (field("ret") == "0") { prop = "C03"; key = "operation-failed"; return "operation reported failure under this schedule"; }
-  if (field("mout") != "ok") { prop = "C03"; key = "output-differs"; return "output differs from sequential reference: " + field("mout"); }
-  if (field("mlog") != "ok") { prop = "C03"; key = "block-log"; return "per-stream block log wrong: " + field("mlog"); }
-  if (field("races") != "none") { prop = "C14"; key = "hb-race"; return "unordered accesses to a chunk buffer: " + field("races"); }
-  if (field("overlap") != "none") { prop = "C14"; key = "overlap"; return "worker touched a buffer while the I/O thread was refilling/flushing it: " + field("overlap"); }
-  if (field("threads") != std::to_string(Tn + 1)) { prop = "C04"; key = "threads"; return "unexpected thread count " + field("threads"); }
-  return "";
+  if (field("ret") == "0") v.push_back({"C03", "operation-failed", "operation reported failure under this schedule"});
+  if (field("mout") != "ok") v.push_back({"C03", "output-differs", "output differs from sequential reference: " + field("mout")});
+  else if (field("mlog") != "ok") v.push_back({"C03", "block-log", "per-stream block log wrong: " + field("mlog")});
+  if (field("mlog") != "ok") v.push_back({"C14", "chunk-assignment", "a chunk was not processed by its owner exactly once in file order: " + field("mlog")});
+  if (field("races") != "none") v.push_back({"C14", "hb-race", "unordered accesses to a chunk buffer: " + field("races")});
+  if (field("overlap") != "none") v.push_back({"C14", "overlap", "worker touched a buffer while the I/O thread was refilling/flushing it: " + field("overlap")});
+  if (field("threads") != std::to_string(Tn + 1)) v.push_back({"C04", "threads", "unexpected thread count " + field("threads")});
+  return v;
 }
+static std::string vkeys(const std::vector<Verdict> &v) { std::string s; for (auto &e : v) s += e.prop + "/" + e.key + ";"; return s; }
 
 int main(int argc, char **argv) {
   Args a(argc, argv);
@@ -281,11 +284,15 @@ int main(int argc, char **argv) {
     std::vector<int> pre = a.list("replay");
     cfg.sleep = a.num("sleep", 0) != 0;
     vx::Exec x1 = vx::run_one(pre, cfg, sc), x2 = vx::run_one(pre, cfg, sc);
-    std::string p1, k1, p2, k2;
-    std::string d1 = classify(x1, p1, k1), d2 = classify(x2, p2, k2);
-    J().s("t", "replay").s("config", cfgname).s("outcome", vx::outcome_name(x1.outcome)).s("obs", x1.obs).s("fatal", x1.fatal).s("verdict", d1.empty() ? "holds" : p1 + ":" + k1 + ": " + d1)
-        .bo("deterministic", x1.outcome == x2.outcome && x1.obs == x2.obs && vx::choices_of(x1) == vx::choices_of(x2)).raw("schedule", jarr(vx::choices_of(x1))).emit();
-    return (x1.outcome == x2.outcome && x1.obs == x2.obs) ? (d1.empty() ? 0 : 1) : 3;
+    std::vector<Verdict> v1 = classify_all(x1), v2 = classify_all(x2);
+    std::string want = a.str("prop", "");
+    std::string verdict = "holds";
+    bool bad = false;
+    for (auto &e : v1) if (want.empty() || e.prop == want) { if (!bad) verdict = e.prop + ":" + e.key + ": " + e.desc; bad = true; }
+    bool det = x1.outcome == x2.outcome && x1.obs == x2.obs && vx::choices_of(x1) == vx::choices_of(x2);
+    J().s("t", "replay").s("config", cfgname).s("outcome", vx::outcome_name(x1.outcome)).s("obs", x1.obs).s("fatal", x1.fatal).s("verdict", verdict).s("all", vkeys(v1))
+        .bo("deterministic", det).raw("schedule", jarr(vx::choices_of(x1))).emit();
+    return det ? (bad ? 1 : 0) : 3;
   }
 
   vx::Explorer ex;
@@ -294,22 +301,20 @@ int main(int argc, char **argv) {
   std::map<std::string, int> reported;
   long nsamples = 0;
   ex.on_exec = [&](const vx::Exec &x, const std::vector<int> &) {
-    std::string prop, key;
-    std::string d = classify(x, prop, key);
-    if (!d.empty()) {
-      std::string k = prop + "/" + key;
+    std::vector<Verdict> vs = classify_all(x);
+    for (auto &e : vs) {
+      std::string k = e.prop + "/" + e.key;
       if (reported[k]++ < 2) {
         // confirm by replaying the exact schedule once more before reporting
         std::vector<int> ch = vx::choices_of(x);
         vx::Config c2 = cfg;
         if (x.outcome == vx::OC_TIMEOUT) c2.alarm_s = cfg.alarm_s * 10;
         vx::Exec y = vx::run_one(ch, c2, sc);
-        std::string p2, k2;
-        std::string d2 = classify(y, p2, k2);
-        bool same = (p2 == prop && k2 == key);
-        if (x.outcome == vx::OC_TIMEOUT && y.outcome != vx::OC_TIMEOUT) { reported[k]--; return; } // slow machine, not a hang
-        std::string rargs = "T=" + std::to_string(Tn) + " len=" + std::to_string(len) + " enc=" + std::to_string(ENC) + " scenario=" + SCEN + " cmode=" + std::to_string(CMODE) + " hmode=" + std::to_string(HMODE) + " coarse=" + std::to_string(COARSE) + " spurious=" + std::to_string(cfg.spurious) + " sleep=" + std::to_string(cfg.sleep ? 1 : 0) + " bufsz=" + std::to_string(NB);
-        J().s("t", "viol").s("prop", prop).s("key", key).s("desc", "[" + cfgname + "] " + d + " | deviations=" + std::to_string(vx::deviations_of(x)) + (same ? " | replayed: same verdict" : " | REPLAY DIFFERS: " + d2))
+        if (x.outcome == vx::OC_TIMEOUT && y.outcome != vx::OC_TIMEOUT) { reported[k]--; continue; } // slow machine, not a hang
+        bool same = false;
+        for (auto &e2 : classify_all(y)) if (e2.prop == e.prop && e2.key == e.key) same = true;
+        std::string rargs = "T=" + std::to_string(Tn) + " len=" + std::to_string(len) + " enc=" + std::to_string(ENC) + " scenario=" + SCEN + " cmode=" + std::to_string(CMODE) + " hmode=" + std::to_string(HMODE) + " coarse=" + std::to_string(COARSE) + " spurious=" + std::to_string(cfg.spurious) + " sleep=" + std::to_string(cfg.sleep ? 1 : 0) + " prop=" + e.prop + " bufsz=" + std::to_string(NB);
+        J().s("t", "viol").s("prop", e.prop).s("key", e.key).s("desc", "[" + cfgname + "] " + e.desc + " | deviations=" + std::to_string(vx::deviations_of(x)) + (same ? " | replayed: same verdict" : " | REPLAY DIFFERS: " + vkeys(classify_all(y))))
             .raw("replay", J().s("harness", "pipe_explore").s("args", rargs).raw("schedule", jarr(ch)).n("bufsz", NB).str()).bo("confirmed", same).emit();
       }
     }
